@@ -179,6 +179,9 @@ func c07One(w *mon.W, s *gen.TokenSpec, label string) {
 	tkey := traitKey(traits)
 	tk, err := s.Build()
 	w.Eval(1)
+	if traits["time-beyond-2^53"] {
+		w.Cover("time/beyond-2^53")
+	}
 	if err != nil {
 		// rejected by the constructor: nothing to round-trip
 		w.Count("constructor-rejected/"+tkey, 1)
@@ -189,9 +192,6 @@ func c07One(w *mon.W, s *gen.TokenSpec, label string) {
 	w.Cover(label)
 	if traits["integral-float"] {
 		w.Cover("float/integral")
-	}
-	if traits["time-beyond-2^53"] {
-		w.Cover("time/beyond-2^53")
 	}
 	f0 := gen.Fields(tk)
 	desc := describeSpec(s)
